@@ -979,7 +979,7 @@ class Check(PropertyCheck):
     namespaces = ['RegionsVerif.Props.C06']
     parallel = True
     level = 'proof'
-    rule = ('real astropy.wcs.WCS: TAN/SIN/CAR x rotation -180..180 deg x pixel scale 0.01arcsec..0.1deg (log-uniform) x both parities x '
+    rule = ('real astropy.wcs.WCS: TAN/SIN/CAR x linear part encoded as PC+CDELT(-s,s) / full CD matrix / parity flip inside PC with positive CDELT / CROTA2+CDELT (the same transformation) x rotation -180..180 deg x pixel scale 0.01arcsec..0.1deg (log-uniform) x both parities x '
             'ICRS/FK5/FK4/Galactic x reference latitude |lat|<85 x positions within min(300 px, 25 deg) of CRPIX; every pixel class '
             '(circle, ellipse, rectangle, polygon, regular polygon, 3 annuli, point, line, text) and compounds to depth 2, every sky class, '
             'sizes 0.015..240 px, any angle/unit, meta (include in {absent,True,False,1,0}, label/comment/text/name/tag) and visual '
